@@ -522,11 +522,15 @@ where
     /// Returns an iterator over all the entries in the routing table to give to a table filter.
     ///
     /// This differs from the regular iterator as it doesn't take ownership of self and doesn't try
-    /// to apply any pending nodes.
+    /// to apply any pending nodes. The values of pending nodes are included, as these nodes enter
+    /// the table without a further table filter check once their timeout elapses.
     fn table_iter(&self) -> impl Iterator<Item = &TVal> {
-        self.buckets
-            .iter()
-            .flat_map(move |table| table.iter().map(|n| &n.value))
+        self.buckets.iter().flat_map(move |table| {
+            table
+                .iter()
+                .map(|n| &n.value)
+                .chain(table.pending().map(|p| p.value()))
+        })
     }
 
     /// Returns an iterator over all the entries in the routing table.
